@@ -126,6 +126,20 @@ CHECKS = {
         note="Bound: depth 3 (quick) / 4 (thorough) on 4 base models (plain GD, block-smooth + partition, quadratic class with "
              "class LMI, composite + prox + user LMI). CLARABEL tolerance 2e-5 on values.",
     ),
+    "C15": dict(
+        category="model_checking",
+        technique="explicit enumeration of all get_block histories <= 4 (5) for d in {1,2,3} on the real BlockPartition; exact "
+                  "set comparison of the generated relations with the reference orthogonality set; evaluation on real "
+                  "coordinate projections for every coordinate partition of R^n, n <= 3; recorded solves",
+        text="Every history over 6 point kinds x block indices is replayed on a fresh partition: the blocks must sum back to "
+             "the point, repeated queries must return the identical objects, one block must be the identity, and the "
+             "relations generated for the solve must be exactly (as a set of functionals) the orthogonality relations "
+             "between different blocks of all decomposed points - checked also numerically on the real projections for "
+             "every coordinate partition. Block-smooth solve scenarios (points decomposed only by the class itself, a new "
+             "point decomposed between two solves, a hand-added constraint) are observed through recording wrappers.",
+        note="Bound: depth 4 / 5 (one less for d = 3); n <= 3; 7 solve scenarios. Block-smooth class constraints on real "
+             "members are C03's business.",
+    ),
     "C16": dict(
         category="model_checking",
         technique="explicit enumeration of all histories <= 3 (4) over {real solve, injected 'no value' / 'error' solver "
@@ -144,5 +158,5 @@ CHECKS = {
 
 _PENDING = "check not built yet in this session (planned, see DESIGN.md section 4); not claimed until it has run clean and caught a mutant"
 NOT_APPLICABLE = {k: _PENDING for k in
-                  ["C03", "C04", "C05", "C08", "C09", "C10", "C14", "C15",
+                  ["C03", "C04", "C05", "C08", "C09", "C10", "C14",
                    "C17"]}
